@@ -66,6 +66,11 @@ fn leaves() -> Vec<Value> {
         out.push(Value::Text("t".repeat(n)));
     }
     out.push(Value::Text("é€".into()));
+    // longer than the decoder's 4096-byte read slice, with a two- and a three-byte character
+    // straddling the slice boundary
+    out.push(Value::Text(format!("{}é{}", "a".repeat(4095), "b".repeat(10))));
+    out.push(Value::Text(format!("{}€{}", "a".repeat(4094), "b".repeat(4100))));
+    out.push(Value::Bytes(Bytes(vec![0x5A; 4097])));
     out.push(Value::Bool(true));
     out.push(Value::Bool(false));
     out.push(Value::Null);
@@ -139,6 +144,318 @@ fn header(major: u8, n: u64, width: u8) -> Vec<u8> {
             v
         }
     }
+}
+
+/// How `enc_with` writes containers and strings.
+#[derive(Clone, Copy, PartialEq, Debug)]
+enum Indef {
+    None,
+    /// byte strings as one indefinite-length string with a single chunk
+    BytesOneChunk,
+    /// byte strings split into chunks of 1 byte, the rest, and an empty chunk
+    BytesSplit,
+    Text,
+    Arrays,
+    Maps,
+    All,
+}
+
+/// An encoder of the generic data model written from RFC 8949 (independent of the library's).
+fn enc_with(v: &Value, mode: Indef, out: &mut Vec<u8>) {
+    let all = mode == Indef::All;
+    match v {
+        Value::Positive(n) => out.extend(min_header(0, *n)),
+        Value::Negative(n) => out.extend(min_header(1, *n)),
+        Value::Bytes(b) => {
+            if mode == Indef::BytesOneChunk || all {
+                out.push(0x5f);
+                out.extend(min_header(2, b.0.len() as u64));
+                out.extend_from_slice(&b.0);
+                out.push(0xff);
+            } else if mode == Indef::BytesSplit {
+                out.push(0x5f);
+                let k = b.0.len().min(1);
+                out.extend(min_header(2, k as u64));
+                out.extend_from_slice(&b.0[..k]);
+                out.extend(min_header(2, (b.0.len() - k) as u64));
+                out.extend_from_slice(&b.0[k..]);
+                out.push(0x40);
+                out.push(0xff);
+            } else {
+                out.extend(min_header(2, b.0.len() as u64));
+                out.extend_from_slice(&b.0);
+            }
+        }
+        Value::Text(t) => {
+            if mode == Indef::Text || all {
+                out.push(0x7f);
+                out.extend(min_header(3, t.len() as u64));
+                out.extend_from_slice(t.as_bytes());
+                out.push(0xff);
+            } else {
+                out.extend(min_header(3, t.len() as u64));
+                out.extend_from_slice(t.as_bytes());
+            }
+        }
+        Value::Array(xs) => {
+            let ind = mode == Indef::Arrays || all;
+            if ind {
+                out.push(0x9f)
+            } else {
+                out.extend(min_header(4, xs.len() as u64))
+            }
+            for x in xs {
+                enc_with(x, mode, out);
+            }
+            if ind {
+                out.push(0xff)
+            }
+        }
+        Value::Map(es) => {
+            let ind = mode == Indef::Maps || all;
+            if ind {
+                out.push(0xbf)
+            } else {
+                out.extend(min_header(5, es.len() as u64))
+            }
+            for (k, x) in es {
+                enc_with(k, mode, out);
+                enc_with(x, mode, out);
+            }
+            if ind {
+                out.push(0xff)
+            }
+        }
+        Value::Tag(t, x) => {
+            out.extend(min_header(6, *t));
+            enc_with(x, mode, out);
+        }
+        Value::Bool(b) => out.push(if *b { 0xf5 } else { 0xf4 }),
+        Value::Null => out.push(0xf6),
+        Value::Simple(s) => {
+            if *s < 24 {
+                out.push(0xe0 | s)
+            } else {
+                out.extend([0xf8, *s])
+            }
+        }
+        Value::Float(f) => {
+            out.push(0xfb);
+            out.extend_from_slice(&f.to_bits().to_be_bytes());
+        }
+    }
+}
+
+fn min_header(major: u8, n: u64) -> Vec<u8> {
+    let w = if n < 24 {
+        0
+    } else if n <= 0xff {
+        1
+    } else if n <= 0xffff {
+        2
+    } else if n <= 0xffff_ffff {
+        4
+    } else {
+        8
+    };
+    header(major, n, w)
+}
+
+/// every byte-string node of `v`, one at a time, with its content shortened / extended by a byte
+fn resize_bytes_nodes(v: &Value) -> Vec<(String, Value)> {
+    fn walk(v: &Value, path: &mut Vec<usize>, out: &mut Vec<Vec<usize>>) {
+        match v {
+            Value::Bytes(_) => out.push(path.clone()),
+            Value::Array(xs) => {
+                for (i, x) in xs.iter().enumerate() {
+                    path.push(i);
+                    walk(x, path, out);
+                    path.pop();
+                }
+            }
+            Value::Map(es) => {
+                for (i, (_, x)) in es.iter().enumerate() {
+                    path.push(i);
+                    walk(x, path, out);
+                    path.pop();
+                }
+            }
+            Value::Tag(_, x) => {
+                path.push(0);
+                walk(x, path, out);
+                path.pop();
+            }
+            _ => {}
+        }
+    }
+    fn at<'a>(v: &'a mut Value, path: &[usize]) -> &'a mut Value {
+        if path.is_empty() {
+            return v;
+        }
+        match v {
+            Value::Array(xs) => at(&mut xs[path[0]], &path[1..]),
+            Value::Map(es) => at(&mut es[path[0]].1, &path[1..]),
+            Value::Tag(_, x) => at(x, &path[1..]),
+            _ => v,
+        }
+    }
+    let mut paths = vec![];
+    walk(v, &mut vec![], &mut paths);
+    let mut out = vec![];
+    for p in paths {
+        for (what, f) in [("shortened by one byte", 0usize), ("extended by one byte", 1), ("emptied", 2)] {
+            let mut c = v.clone();
+            if let Value::Bytes(b) = at(&mut c, &p) {
+                match f {
+                    0 => {
+                        if b.0.pop().is_none() {
+                            continue;
+                        }
+                    }
+                    1 => b.0.push(0x77),
+                    _ => {
+                        if b.0.is_empty() {
+                            continue;
+                        }
+                        b.0.clear()
+                    }
+                }
+            }
+            out.push((format!("byte string at {p:?} {what}"), c));
+        }
+    }
+    out
+}
+
+/// Re-encodings of a value's own encoding that CBOR allows (indefinite lengths) and byte
+/// strings of another size: decoded as `T`, they either are rejected or mean what they say.
+fn encoding_deviations<T: CborSerialize + CborDeserialize + Debug + PartialEq>(ctx: &mut Ctx, name: &str, v: &T) {
+    let e = cbor::cbor_encode(v).unwrap();
+    let generic: Value = cbor::cbor_decode(&e).unwrap();
+    let mut plain = vec![];
+    enc_with(&generic, Indef::None, &mut plain);
+    if plain != e {
+        ctx.violation("encoding-differs-from-reference-encoder", name, e.len(), json!({"type": name, "library": hex::encode(&e), "reference": hex::encode(&plain)}), json!({}));
+    }
+    for mode in [Indef::BytesOneChunk, Indef::BytesSplit, Indef::Text, Indef::Arrays, Indef::Maps, Indef::All] {
+        let mut x = vec![];
+        enc_with(&generic, mode, &mut x);
+        if x == e {
+            continue;
+        }
+        ctx.evals += 1;
+        set_case(name, &x);
+        match mc_core::catch(|| cbor::cbor_decode::<T>(&x).ok()) {
+            Err(p) => ctx.violation("decoder-panicked", name, x.len(), json!({"type": name, "input": hex::encode(&x)}), json!({"panic": p})),
+            Ok(Some(t2)) => {
+                ctx.traces += 1;
+                if &t2 != v {
+                    ctx.violation("indefinite-length-form-decodes-to-another-value", name, x.len(), json!({"type": name, "input": hex::encode(&x), "form": format!("{mode:?}")}), json!({"decoded": format!("{t2:?}").chars().take(300).collect::<String>()}));
+                }
+                ctx.outcome("indefinite-length form: accepted with the same value", 1);
+            }
+            Ok(None) => ctx.outcome("indefinite-length form: rejected", 1),
+        }
+    }
+    for (what, altered) in resize_bytes_nodes(&generic) {
+        for mode in [Indef::None, Indef::BytesOneChunk, Indef::BytesSplit] {
+            let mut x = vec![];
+            enc_with(&altered, mode, &mut x);
+            ctx.evals += 1;
+            set_case(name, &x);
+            match mc_core::catch(|| cbor::cbor_decode::<T>(&x).ok()) {
+                Err(p) => ctx.violation("decoder-panicked", name, x.len(), json!({"type": name, "input": hex::encode(&x)}), json!({"panic": p})),
+                Ok(Some(t2)) => {
+                    ctx.traces += 1;
+                    // accepted: then the value must carry exactly the altered content
+                    let back: Option<Value> = cbor::cbor_encode(&t2).ok().and_then(|b| cbor::cbor_decode(&b).ok());
+                    if back.as_ref() != Some(&altered) {
+                        ctx.violation("byte-string-of-another-size-accepted-with-other-content", name, x.len(), json!({"type": name, "input": hex::encode(&x), "derived_by": what, "form": format!("{mode:?}")}), json!({"decoded": format!("{t2:?}").chars().take(300).collect::<String>()}));
+                    }
+                    ctx.outcome("resized byte string: accepted as is (variable-size field)", 1);
+                }
+                Ok(None) => ctx.outcome("resized byte string: rejected", 1),
+            }
+        }
+    }
+}
+
+/// Fixed-size byte arrays: every content length 0..=N+1 in definite form and in every split
+/// into <= 3 indefinite-length chunks; accepted iff the total is N, with exactly that content.
+fn fixed_arrays(ctx: &mut Ctx) {
+    fn check<const N: usize>(ctx: &mut Ctx) {
+        let name = format!("[u8; {N}]");
+        for total in 0..=N + 1 {
+            let content: Vec<u8> = (0..total).map(|i| i as u8 + 1).collect();
+            let mut forms: Vec<Vec<u8>> = vec![];
+            let mut d = min_header(2, total as u64);
+            d.extend_from_slice(&content);
+            forms.push(d);
+            // all compositions of `total` into at most 3 chunks (chunks may be empty)
+            for a in 0..=total {
+                for b in 0..=total - a {
+                    for nchunks in 0..=3usize {
+                        let parts: Vec<usize> = match nchunks {
+                            0 => vec![],
+                            1 => vec![total],
+                            2 => vec![a, total - a],
+                            _ => vec![a, b, total - a - b],
+                        };
+                        if parts.iter().sum::<usize>() != total {
+                            continue;
+                        }
+                        let mut x = vec![0x5f];
+                        let mut at = 0;
+                        for p in parts {
+                            x.extend(min_header(2, p as u64));
+                            x.extend_from_slice(&content[at..at + p]);
+                            at += p;
+                        }
+                        x.push(0xff);
+                        forms.push(x);
+                    }
+                }
+            }
+            forms.sort();
+            forms.dedup();
+            for x in forms {
+                ctx.evals += 1;
+                set_case(&name, &x);
+                match mc_core::catch(|| cbor::cbor_decode::<[u8; N]>(&x).ok()) {
+                    Err(p) => ctx.violation("decoder-panicked", &name, x.len(), json!({"type": name, "input": hex::encode(&x)}), json!({"panic": p})),
+                    Ok(Some(arr)) => {
+                        ctx.traces += 1;
+                        if total != N || arr[..] != content[..] {
+                            ctx.violation("wrong-size-byte-string-accepted-as-fixed-array", &name, x.len(), json!({"type": name, "input": hex::encode(&x)}), json!({"decoded": hex::encode(arr), "content_length": total}));
+                        }
+                        ctx.outcome("fixed array: exact-size string accepted", 1);
+                    }
+                    Ok(None) => {
+                        // indefinite-length strings of the right size may be rejected (not required), definite ones may not
+                        if total == N && x[0] != 0x5f {
+                            ctx.violation("valid-encoding-rejected", &name, x.len(), json!({"type": name, "input": hex::encode(&x)}), json!({}));
+                        }
+                        ctx.outcome("fixed array: string rejected", 1);
+                    }
+                }
+            }
+        }
+        // a chunk header that declares an absurd length after real data
+        for x in [vec![0x5f, 0x41, 0x01, 0x5b, 0xff, 0xff, 0xff, 0xff, 0xff, 0xff, 0xff, 0xff, 0xff], vec![0x5f, 0x41, 0x01, 0x5b, 0xff, 0xff, 0xff, 0xff, 0xff, 0xff, 0xff, 0xfe, 0x00, 0xff], vec![0x5f, 0x5b, 0x80, 0, 0, 0, 0, 0, 0, 0, 0xff]] {
+            ctx.evals += 1;
+            set_case(&name, &x);
+            match mc_core::catch(|| cbor::cbor_decode::<[u8; N]>(&x).ok()) {
+                Err(p) => ctx.violation("decoder-panicked", &name, x.len(), json!({"type": name, "input": hex::encode(&x)}), json!({"panic": p})),
+                Ok(Some(arr)) => ctx.violation("malformed-item-accepted", &name, x.len(), json!({"type": name, "input": hex::encode(&x)}), json!({"decoded": hex::encode(arr)})),
+                Ok(None) => ctx.outcome("fixed array: absurd chunk length rejected", 1),
+            }
+        }
+    }
+    check::<0>(ctx);
+    check::<1>(ctx);
+    check::<3>(ctx);
+    check::<4>(ctx);
+    check::<32>(ctx);
 }
 
 fn values(t: &mut Tasks) {
@@ -502,6 +819,7 @@ macro_rules! tok {
         $t.add(move |ctx: &mut Ctx| {
             for v in &vals {
                 field_deviations::<$ty>(ctx, stringify!($ty), v, $other, $is_enum);
+                encoding_deviations::<$ty>(ctx, stringify!($ty), v);
             }
             let eq = |a: &$ty, b: &$ty| a == b;
             sweep_cbor::<$ty>(ctx, stringify!($ty), vals, &eq, 2);
@@ -511,6 +829,7 @@ macro_rules! tok {
 
 fn tokens(t: &mut Tasks) {
     let quick = t.tier == mc_core::Tier::Quick;
+    t.add(fixed_arrays);
     // ---- amounts: value x 10^-decimals across CBOR, decimal string, JSON, rust_decimal ----
     t.add(|ctx: &mut Ctx| {
         for a in amounts() {
